@@ -644,7 +644,7 @@ private:
 		// maxpos / 3/8  = 27,021,597,764,222,976   0b0111'1111'1111'1101
 		// maxpos / 4    = 18,014,398,509,481,984   0b0111'1111'1111'1100
 		bool sign = (rhs < 0);
-		uint64_t v = sign ? -rhs : rhs; // project to positve side of the projective reals
+		uint64_t v = sign ? (0ull - static_cast<uint64_t>(rhs)) : static_cast<uint64_t>(rhs); // project to positve side of the projective reals
 		uint16_t raw = 0;
 		if (v > 0x0080'0000'0000'0000) { // v > 36,028,797,018,963,968
 			raw = 0x7FFFu;  // +-maxpos
